@@ -827,4 +827,10 @@ def extract_default(""")]),
                 if fun_name == args.truth and path.realpath(path.expanduser(filename))
                 == path.realpath(path.expanduser(truth_file))
                 else _conform_filename(""")]),
+    dict(id="cli2-sorted-file-lists", kind=B, props=["C09", "C20"], expect="CLI-2", edits=[("__main__.py",
+         """                k: v if k == "truth" or isinstance(v, list) or v is None else [v]""",
+         """                k: v if k == "truth" or v is None else sorted(v if isinstance(v, list) else [v])""")]),
+    dict(id="cli2-listified-file-lists", kind=N, props=["C09", "C20"], expect="silent", edits=[("__main__.py",
+         """                k: v if k == "truth" or isinstance(v, list) or v is None else [v]""",
+         """                k: v if k == "truth" or v is None else (list(v) if isinstance(v, (list, tuple)) else [v])""")]),
 ]
